@@ -202,6 +202,16 @@ def run(ctx):
     n6 = engine.take_over(ctx, c2.obs, lambda o: o.rule == "C19.1" and o.key.split("|")[-1] in ("table", "atoms", "case-insensitive"), "C04.6")
     ctx.floor("C04.6 obligations on application-supplied framing headers", n6, 3)
 
+    # ---- C04.7 what may be framed how: an HTTP/1.0 client is never sent a chunked body, 1xx/204 never a transfer coding (the chooser's
+    # table, C05.1, taken over: a body framed in a way the client cannot read is not "self-delimiting")
+    import rules_C05
+    c5 = engine.Ctx("C04", "quick", facts, 0)
+    try:
+        rules_C05.run(c5)
+        n7 = engine.take_over(ctx, c5.obs, lambda o: o.rule == "C05.1" and o.key.split("|")[-1] in ("table", "answer-applied"), "C04.7")
+        ctx.floor("C04.7 obligations taken from the coding chooser", n7, 2)
+    except CheckerError as e:
+        ctx.ob("C04.7", "coding-table", "the coding chooser could be evaluated", False, "response.rs", str(e))
     # ---- C04.4 head templates; head before body
     # (the head writer with the helpers of its file spliced in: the status line and the header lines may have writers of their own)
     import inline
